@@ -302,6 +302,34 @@ func mutate(r *rand.Rand, in []byte, corpus []corpusEntry) ([]byte, string) {
 	return b, name
 }
 
+// solveMod16 returns every c in [0, 65536) with S*c = t (mod 65536).
+func solveMod16(S, t uint64) []uint16 {
+	g := uint64(1)
+	for S%(g*2) == 0 && g < 65536 {
+		g *= 2
+	}
+	if t%g != 0 {
+		return nil
+	}
+	m := 65536 / g // modulus of the reduced congruence (a power of two)
+	a := (S / g) % m
+	// inverse of the odd number a modulo the power of two m (Newton iteration doubles the number of correct bits)
+	inv := a
+	for i := 0; i < 5; i++ {
+		inv = inv * (2 - a*inv) % m
+		if int64(inv) < 0 {
+			inv += m
+		}
+	}
+	inv %= m
+	c0 := (t / g) % m * inv % m
+	var out []uint16
+	for k := uint64(0); k < g; k++ {
+		out = append(out, uint16(c0+k*m))
+	}
+	return out
+}
+
 // walkAccessors calls the size and child-reference accessors of an accepted slab, recursively.
 func walkAccessors(s atree.Storable, depth int) int {
 	if s == nil || depth > 64 {
@@ -507,6 +535,61 @@ func runC19(c *CaseCtx) *CaseResult {
 			}
 		}
 		res.Obs["systematic-single-field-inputs"] += n
+	}
+	// LENGTH-CONSISTENT COUNT FORGING on index slabs (version 0 and 1): an index slab is a 16-bit child count followed by
+	// fixed-size child headers, and its decoder checks "bytes present == header size x count". If that product is formed
+	// in 16 bits, a truncated register passes the check with a forged count c such that size*c mod 65536 equals the number
+	// of bytes actually present, and the header loop runs off the end. For every 2-byte field that holds the true child
+	// count, every truncation point behind it (the last 64 positions, and every 4th before) and every plausible header
+	// size, all counts solving the congruence are tried.
+	{
+		n := 0
+		perKind := map[string]int{}
+		for _, e := range corpus {
+			if !strings.Contains(e.kind, "meta") {
+				continue
+			}
+			if perKind[e.kind]++; perKind[e.kind] > 2 {
+				continue
+			}
+			sl, err := atree.DecodeSlab(e.id, e.data, cborDecModeDefault, decodeStorable, decodeTypeInfo)
+			if err != nil {
+				continue
+			}
+			vi := atree.VerifSlabInfo(sl)
+			if vi == nil || len(vi.Children) == 0 {
+				continue
+			}
+			kids := uint16(len(vi.Children))
+			for p := 0; p+2 <= len(e.data) && p < 96; p++ {
+				if binary.BigEndian.Uint16(e.data[p:]) != kids {
+					continue
+				}
+				q := p + 2
+				for T := q; T <= len(e.data); T++ {
+					if len(e.data)-T > 64 && (T-q)%4 != 0 {
+						continue
+					}
+					present := uint64(T - q)
+					for _, S := range []uint64{14, 18, 24, 28, 16, 20, 12, 32} {
+						// all c in [0, 65536) with S*c = present (mod 65536)
+						for _, c := range solveMod16(S, present&0xffff) {
+							if (S*uint64(c))&0xffff != present&0xffff {
+								res.fail(viol("harness", "solveMod16(%d, %d) returned %d", S, present&0xffff, c))
+								return res
+							}
+							buf := append([]byte(nil), e.data[:T]...)
+							binary.BigEndian.PutUint16(buf[p:], c)
+							n++
+							if !check(e, buf, fmt.Sprintf("forged child count %d at offset %d, register cut to %d bytes (header size %d)", c, p, T, S)) {
+								return res
+							}
+						}
+					}
+				}
+			}
+		}
+		res.Obs["length-consistent-count-forgeries"] += n
 	}
 	// parse the v1 data / storable registers once into CBOR item trees for the structure-preserving mutator
 	type treeEntry struct {
